@@ -45,6 +45,8 @@ def finding_matches(f: dict, v: dict) -> bool:
         return False
     if "clause" in m and m["clause"] != v.get("clause"):
         return False
+    if "clause_prefix" in m and not str(v.get("clause", "")).startswith(m["clause_prefix"]):
+        return False
     pred = m.get("pred")
     if pred:
         try:
